@@ -9,7 +9,8 @@ namespace YV.YS
 open YV YV.Y
 
 /-- left-to-right substitution of the four defined escapes; any other backslash pair is kept as is
-    (RFC 6020 is silent on them: outside what is compared) -/
+    (the property names the four escapes that are substituted; `\r`, which the code substitutes as well —
+    deliberately, its own test expects it — is outside what is compared with this specification) -/
 def unescape : Bytes → Bytes
   | [] => []
   | 92 :: c :: r =>
@@ -61,16 +62,17 @@ def decodePiece : Piece → Bytes
 
 def decodeArg (ps : List Piece) : Bytes := (ps.map decodePiece).flatten
 
-/-- does the double-quoted text contain a backslash pair other than the four defined ones, or one of
-    \n \t (\r) while the decoded text has a line break?  RFC 6020 does not fix the order of trimming and
-    substitution; such texts are compared implementation-vs-model only. -/
+/-- does the double-quoted text contain the pair `\r`, or one of \n \t while the decoded text has a line
+    break?  RFC 6020 does not fix the order of trimming and substitution; such texts are compared
+    implementation-vs-model only. -/
 def hasEscape (cs : List Nat) : Bytes → Bool
   | 92 :: c :: r => cs.contains c || hasEscape cs r
   | _ :: r => hasEscape cs r
   | [] => false
 
+/-- the pair `\r` (read as pairs from the left: the `r` after an escaped backslash is not one) -/
 def undefinedEscape : Bytes → Bool
-  | 92 :: c :: r => !(c = 110 || c = 116 || c = 34 || c = 92) || undefinedEscape r
+  | 92 :: c :: r => c = 114 || undefinedEscape r
   | _ :: r => undefinedEscape r
   | [] => false
 
